@@ -179,3 +179,7 @@ Qed.
 
 Lemma cmd_char_not c l : cmd_char c = false -> contains c (join_ints l) = false.
 Proof. intro Hc. eapply (forallb_contains cmd_char); [exact Hc|apply join_ints_chars]. Qed.
+
+Lemma expiry_text_roundtrip z :
+  (- 9223372036854775808 <= z < 9223372036854775808)%Z -> parse_int64 (trim_space (dec_of_Z z)) = Some z.
+Proof. intro H. rewrite dec_of_Z_trim. apply parse_int64_dec. exact H. Qed.
